@@ -161,6 +161,27 @@ def macro_program(rng, many=False):
     return "\n".join(lines) + "\n", defines, expect
 
 
+def nested_cases():
+    """function-like macros nested in themselves and in each other, 1 to 5 deep, with an object-like macro defined
+    before / after them used on the same line (each expansion pass of the implementation unfolds one level)"""
+    out = []
+    for depth in range(1, 6):
+        for k_first in (True, False):
+            for inner in ("add", "mix"):
+                defs = ["#define add(a,b) a+b", "#define twice(a) (a)*2"]
+                kdef = "#define K 3"
+                lines = ([kdef] + defs) if k_first else (defs + [kdef])
+                macros = {"add": (["a", "b"], "a+b"), "twice": (["a"], "(a)*2"), "K": (None, "3")}
+                e = "1"
+                for d in range(depth):
+                    f = "add" if inner == "add" or d % 2 == 0 else "twice"
+                    e = "add(%s,%d)" % (e, d + 2) if f == "add" else "twice(%s)" % e
+                uses = ["x = add(%s,K);" % e, "y = %s + K;" % e, "z = K + twice(%s);" % e]
+                expect = [toks(c_expand(u, macros)) for u in uses]
+                out.append(("\n".join(lines + uses) + "\n", [], expect))
+    return out
+
+
 def run(chk):
     ok, obligations = prepare(chk)
     if not ok:
@@ -174,9 +195,10 @@ def run(chk):
         if d:
             chk.tie_broken("preprocessor: model and code disagree", {"source": src, "defines": defs, "real": d[0][:500], "model": d[1][:500]})
     # ---- against C's rule ----
-    for i in range(chk.scale(400, 6000)):
+    cases = nested_cases()
+    for i in range(chk.scale(400, 6000) + len(cases)):
         many = rng.random() < 0.06
-        src, defs, expect = macro_program(rng, many)
+        src, defs, expect = cases[i] if i < len(cases) else macro_program(rng, many)
         r = h.cpp(src, defines=defs)
         chk.case(key=src, nontrivial=len(expect) > 1)
         chk.count("programs_many" if many else "programs")
